@@ -23,6 +23,16 @@ CHECKS = {
              'offsets, lengths and decoder state).'),
 }
 
+CHECKS['C08'] = dict(
+    text='Lean 4 theorem C08_index_eq_scan: for every file, every even read size, every overlap >= 24 and every worker count the '
+         'model of fast_generate_index (block allocation, per-block candidate search, block-local CRC validation, sequential pass) '
+         'equals the sequential scan of the file, given that no acceptable message exceeds the overlap; corollaries: independence of '
+         'workers and of blocking; every entry CRC-valid without any hypothesis. Model tied to fast_indexer.py by correspondence with '
+         'rebound block constants and 1..16 workers; scan spec run as oracle.',
+    ref='4 C08', technique='Lean 4 refinement proof (parallel block search + sequential pass -> sequential scan) + correspondence',
+    note='Trusted: Lean kernel + 3 standard axioms; harness; Pool.starmap = ordered map; file reads and numpy sync-word search as '
+         'modelled; P1 time/type of entries checked against the payload class\'s own unpack (not in the Lean model).')
+
 NOT_APPLICABLE = []
 
 
